@@ -397,6 +397,7 @@ class Shape:
     def __init__(self, name, text, sec, ptype, rules, pi=None, pt=None, initial=None, level="enforcer"):
         self.name, self.text, self.sec, self.ptype, self.rules = name, text, sec, ptype, rules
         self.pi, self.pt, self.initial, self.level = pi, pt, initial or [], level
+        self.sigtag = ""  # appended to violation signatures (a rule universe of its own, e.g. negative priorities)
 
 
 def run_history(shape, hist, form):
@@ -414,7 +415,11 @@ def run_history(shape, hist, form):
     else:
         m = casbin.Enforcer.new_model(text=shape.text)
         ad = make_adapter(casbin, [(shape.sec, shape.ptype, r) for r in shape.initial])
-        e = casbin.Enforcer(m, ad)
+        try:
+            e = casbin.Enforcer(m, ad)
+        except Exception as ex:  # noqa
+            # the initial load itself raised: every step shows that (nothing is stored)
+            return [("!load:" + type(ex).__name__, enc_rules([])) for _ in hist]
         target = e
         call = lambda op: impl_call(e, op, form)  # noqa
     for op in hist:
@@ -515,7 +520,7 @@ def compare(prop, res, shape, hist, impl, answers, want):
             if bad:
                 res.violation(
                     {
-                        "signature": f"{prop}:{op[0]}:{shape.sec}:{'prio' if shape.pi is not None else 'plain'}" + (":" + _uf_kind(prev_pol, op) if op[0] == "updatefiltered" and prev_pol is not None else "") + (":novalues" if op[0] == "removefiltered" and len(op[4]) == 0 else ""),
+                        "signature": (f"{prop}:load-raises:{shape.sec}:prio" if ires.startswith("!load:") else f"{prop}:{'order' if getattr(shape, 'sigtag', '') else op[0]}:{shape.sec}:{'prio' if shape.pi is not None else 'plain'}") + getattr(shape, "sigtag", "") + (":" + _uf_kind(prev_pol, op) if op[0] == "updatefiltered" and prev_pol is not None else "") + (":novalues" if op[0] == "removefiltered" and len(op[4]) == 0 else ""),
                         "what": f"{shape.name}: {op[0]}{tuple(op[3:])} {bad}",
                         "case": case,
                         "model_text": shape.text,
